@@ -53,7 +53,7 @@ impl Spec {
             self.bps,
             self.spc,
             self.nfats,
-            if self.ext_flags & 0x80 == 0 { "mirror".to_string() } else { format!("active{}", self.ext_flags & 0xF) },
+            if self.ext_flags == 0 { "mirror".to_string() } else if self.ext_flags & 0x80 == 0 { format!("mirror-stale{}", self.ext_flags & 0xF) } else { format!("active{}", self.ext_flags & 0xF) },
             if self.eoc_high { "hi" } else { "lo" },
             self.nibble,
             self.layout,
@@ -76,7 +76,12 @@ pub fn grid(th: bool) -> Vec<Spec> {
     ];
     for (width, bps, spc) in geos {
         for nfats in 1..=3u32 {
-            let modes: Vec<u16> = if width == 32 { std::iter::once(0u16).chain((0..nfats as u16).map(|a| 0x80 | a)).collect() } else { vec![0] };
+            // FAT32: mirrored, mirrored with a stale active-copy number (meaningless while mirroring is on), each active copy
+            let modes: Vec<u16> = if width == 32 {
+                std::iter::once(0u16).chain((nfats > 1).then_some(nfats as u16 - 1)).chain((0..nfats as u16).map(|a| 0x80 | a)).collect()
+            } else {
+                vec![0]
+            };
             for ext_flags in modes {
                 for nibble in if width == 32 { vec![0u32, 0xA] } else { vec![0] } {
                     for eoc_high in [false, true] {
@@ -755,7 +760,7 @@ pub fn run(tier: &str) -> i32 {
         "volumes_skipped_by_deadline": ncap,
         "mutations_per_volume": muts.iter().map(|m| m.name).collect::<Vec<_>>(),
         "explanation": "states = foreign volumes in the (tier's) product grid, each an initial state built by the independent builder with its ground truth; transitions = 1 read session + 10 single mutations from every initial state (depth-1 exploration), all executed on the real crate; read: names, short names, UCS-2 units, attributes, raw timestamps, sizes, contents and label vs the builder's ground truth; write: byte-level diff against the pre-image confined to the target's slots / free slots / its FAT entries and clusters / clusters free before / status byte / fs-info, no new structural finding, every other file intact",
-        "grid": "width {12,16,32} x (sector,cluster) {512x1, 512x8, 4096x1, 4096x8 (FAT12); 512x1, 512x8, 4096x1 (FAT16); 512x1 (FAT32)} x FAT copies {1,2,3} x (FAT32: mirrored / each active copy, inactive copies scribbled) x FAT32 top nibble {0,0xA} x end-of-chain {lowest,highest} x chain layout {contiguous,reversed,interleaved,through-last-cluster} x status {clean,dirty}; quick tier = a quarter of the grid",
+        "grid": "width {12,16,32} x (sector,cluster) {512x1, 512x8, 4096x1, 4096x8 (FAT12); 512x1, 512x8, 4096x1 (FAT16); 512x1 (FAT32)} x FAT copies {1,2,3} x (FAT32: mirrored / mirrored with a stale active-copy number / each active copy, inactive copies scribbled) x FAT32 top nibble {0,0xA} x end-of-chain {lowest,highest} x chain layout {contiguous,reversed,interleaved,through-last-cluster} x status {clean,dirty}; quick tier = a quarter of the grid",
         "technique": "exhaustive product grid of builder-made foreign volumes as initial states, depth-1 exploration on the real crate, independent decoder + byte-level diff oracle",
     });
     rep.assumptions = vec!["cluster sizes / copy counts outside the grid are not covered; FAT32 with large clusters is left out because the builder keeps flat images in memory".into()];
